@@ -43,6 +43,18 @@ type Chan struct {
 	// selsends is the subset of sends originating from select operations.
 	selsends uint16
 	close    bool
+	// rdone is the completion flag of the receiver that currently owns the
+	// unbuffered hand-off slot (getp == chanHasRecv); the sender sets it when
+	// it has delivered the value.
+	rdone *bool
+}
+
+// delivered marks the pending unbuffered receive as completed.
+func (p *Chan) delivered() {
+	if p.rdone != nil {
+		*p.rdone = true
+		p.rdone = nil
+	}
 }
 
 func NewChan(eltSize, cap int) *Chan {
@@ -99,6 +111,7 @@ func ChanTrySend(p *Chan, v unsafe.Pointer, eltSize int) bool {
 			c.Memcpy(p.data, v, uintptr(eltSize))
 		}
 		p.getp = chanNoSendRecv
+		p.delivered()
 	} else {
 		if p.len == n || p.close {
 			p.mutex.Unlock()
@@ -136,8 +149,9 @@ func ChanSend(p *Chan, v unsafe.Pointer, eltSize int) bool {
 			c.Memcpy(p.data, v, uintptr(eltSize))
 		}
 		p.getp = chanNoSendRecv
+		p.delivered()
 	} else {
-		for p.len == n {
+		for p.len == n && !p.close {
 			p.cond.Wait(&p.mutex)
 		}
 		if p.close {
@@ -159,6 +173,7 @@ func ChanTryRecv(p *Chan, v unsafe.Pointer, eltSize int) (recvOK bool, tryOK boo
 }
 
 func chanTryRecv(p *Chan, v unsafe.Pointer, eltSize int, acceptSelectSend bool) (recvOK bool, tryOK bool) {
+	var done bool // set by the sender that delivers to this receive
 	n := p.cap
 	p.mutex.Lock()
 	if n == 0 {
@@ -173,6 +188,7 @@ func chanTryRecv(p *Chan, v unsafe.Pointer, eltSize int, acceptSelectSend bool) 
 		}
 		p.getp = chanHasRecv
 		p.data = v
+		p.rdone = &done
 	} else {
 		if p.len == 0 {
 			tryOK = p.close
@@ -190,10 +206,10 @@ func chanTryRecv(p *Chan, v unsafe.Pointer, eltSize int, acceptSelectSend bool) 
 	p.cond.Broadcast()
 	if n == 0 {
 		p.mutex.Lock()
-		for p.getp == chanHasRecv && !p.close {
+		for !done && !p.close {
 			p.cond.Wait(&p.mutex)
 		}
-		recvOK = !p.close
+		recvOK = done
 		tryOK = recvOK
 		p.mutex.Unlock()
 	} else {
@@ -203,6 +219,7 @@ func chanTryRecv(p *Chan, v unsafe.Pointer, eltSize int, acceptSelectSend bool) 
 }
 
 func ChanRecv(p *Chan, v unsafe.Pointer, eltSize int) (recvOK bool) {
+	var done bool // set by the sender that delivers to this receive
 	n := p.cap
 	p.mutex.Lock()
 	if n == 0 {
@@ -215,6 +232,7 @@ func ChanRecv(p *Chan, v unsafe.Pointer, eltSize int) (recvOK bool) {
 		}
 		p.getp = chanHasRecv
 		p.data = v
+		p.rdone = &done
 	} else {
 		for p.len == 0 {
 			if p.close {
@@ -234,10 +252,10 @@ func ChanRecv(p *Chan, v unsafe.Pointer, eltSize int) (recvOK bool) {
 	p.cond.Broadcast()
 	if n == 0 {
 		p.mutex.Lock()
-		for p.getp == chanHasRecv && !p.close {
+		for !done && !p.close {
 			p.cond.Wait(&p.mutex)
 		}
-		recvOK = !p.close
+		recvOK = done
 		p.mutex.Unlock()
 	} else {
 		recvOK = true
